@@ -15,6 +15,7 @@ import numpy as np
 from hypothesis import strategies as st
 
 from vlib.runner import Clause
+from pySDC.core.convergence_controller import ConvergenceController
 from vlib import strats as S
 from vlib import runs as R
 from vlib import fixtures as F
@@ -329,6 +330,75 @@ def scripted_cases(draw):
     return {'num_procs': P, 'maxiter': K, 'nblocks': nblocks, 'table': table, 'jac': draw(st.booleans()), 'all_to_done': draw(st.integers(0, 3)) == 0, 'default': 1.0}
 
 
+# ----------------------------------------------------------------------------------------------- explicitly forced continuation
+class ForceContinue(ConvergenceController):
+    """harness controller: at the iteration budget, forces `extra[step index]` further iterations of that step, one flag per iteration
+    (order 150: after the sweeper-related controllers, before CheckConvergence (200) evaluates the flags)"""
+
+    remaining = {}
+
+    def setup(self, controller, params, description, **kwargs):
+        return {'control_order': 150, **super().setup(controller, params, description, **kwargs)}
+
+    def check_iteration_status(self, controller, S, **kwargs):
+        key = round(S.time, 9)
+        if S.status.iter >= S.params.maxiter and type(self).remaining.get(key, 0) > 0:
+            type(self).remaining[key] -= 1
+            S.status.force_continue = True
+
+
+def prop_forced(case, r):
+    P, K, nblocks = case['num_procs'], case['maxiter'], case['nblocks']
+    desc = R.scalar_description(lam=-1.0, dt=0.1, maxiter=K, restol=-1.0, num_nodes=2, extra_cc={ForceContinue: {}})
+    counts = {}
+
+    class Runaway(Exception):
+        pass
+
+    limit = K + max(case['extra'] + [0]) + 5
+
+    def capture(name, step, lvl):
+        if name == 'pre_iteration':
+            t = round(step.levels[0].time, 9)
+            counts[t] = counts.get(t, 0) + 1
+            if counts[t] > limit:
+                raise Runaway(f'step at t={t} started iteration {counts[t]} with budget {K}')  # count based guard: the run would never end
+
+    F.Recorder.reset(capture=capture)
+    ctrl = R.make_controller(P, desc, hooks=[F.Recorder], mssdc_jac=case['jac'], all_to_done=False)
+    nsteps = P * nblocks
+    # only the last step of a block is forced: its continuation cannot make a successor wait
+    extra = {round(0.1 * (b * P + P - 1), 9): int(n) for b, n in enumerate(case['extra'][:nblocks])}
+    ForceContinue.remaining = dict(extra)
+    prob = ctrl.MS[0].levels[0].prob
+    u0 = prob.dtype_u(prob.init)
+    u0[:] = 1.0
+    try:
+        uend, stats = ctrl.run(u0=u0, t0=0.0, Tend=0.1 * nsteps - 0.03)
+    except Runaway as e:
+        r.fail('forced-continuation-count', f'iteration counter runs away although only {extra} continuation(s) were forced: {e}')
+        return
+    r.label(f'procs{P}', f'maxiter{K}', 'jacobi' if case['jac'] else 'gauss-seidel')
+    if any(extra.values()) and nblocks >= 2:
+        r.nontrivial(case)
+    niter = {round(t, 9): v for t, v in get_sorted(stats, type='niter', sortby='time')}
+    r.check(len(niter) == nsteps, 'niter-records', f'{len(niter)} niter records for {nsteps} steps')
+    for i in range(nsteps):
+        t = round(0.1 * i, 9)
+        exp = K + extra.get(t, 0)
+        got = niter.get(t)
+        r.check(got == exp, 'forced-continuation-count', f'step {i}: {got} iterations with budget {K} and {extra.get(t, 0)} explicitly forced continuation(s), expected {exp} (forcing plan {extra})')
+        r.check(counts.get(t, 0) == got, 'iter-vs-callbacks', f'step {i}: logged niter {got}, {counts.get(t, 0)} pre_iteration callbacks')
+    r.check(all(v == 0 for v in ForceContinue.remaining.values()), 'force-flag-not-consumed', f'{ForceContinue.remaining}')
+
+
+@st.composite
+def forced_cases(draw):
+    nb = draw(st.integers(1, 3))
+    return {'num_procs': draw(st.integers(1, 3)), 'maxiter': draw(st.integers(1, 4)), 'nblocks': nb, 'jac': draw(st.booleans()), 'extra': [draw(st.integers(0, 3)) for _ in range(nb)]}
+
+
+
 def known_match(fid, clause, case, failure):
     tag, msg = failure
     if fid == 'F3b' and tag == 'finished-without-sweep':
@@ -344,4 +414,5 @@ def clauses(tier):
         Clause('real-runs', prop_real, strategy=real_cases(), examples={'quick': 500, 'thorough': 12000}),
         Clause('scripted-enum', prop_scripted, enumerate=scripted_enum, exhaustive=True),
         Clause('scripted-generated', prop_scripted, strategy=scripted_cases(), examples={'quick': 400, 'thorough': 10000}),
+        Clause('forced-continuation', prop_forced, strategy=forced_cases(), examples={'quick': 300, 'thorough': 4000}),
     ]
